@@ -516,10 +516,12 @@ Section Meta.
     end.
 
   (* add_constant(-1.0 * max); multiply_constant(-1.0); multiply_constant(well_temper_scale) *)
-  Definition pmf_value (c : cfg) (s : state) (temp : T) (ix : list Z) : T :=
-    let mx := grid_max (st_e s) (all_ix (gsizes (st_geom s))) in
-    let v := nmul O (nadd O (st_e s ix) (nmul O (nneg O (n1 O)) mx)) (nneg O (n1 O)) in
+  Definition pmf_shift (c : cfg) (temp mx e : T) : T :=
+    let v := nmul O (nadd O e (nmul O (nneg O (n1 O)) mx)) (nneg O (n1 O)) in
     if c_wt c then nmul O v (ndiv O (nadd O (c_bias_temp c) temp) (c_bias_temp c)) else v.
+
+  Definition pmf_value (c : cfg) (s : state) (temp : T) (ix : list Z) : T :=
+    pmf_shift c temp (grid_max (st_e s) (all_ix (gsizes (st_geom s)))) (st_e s ix).
 
   (* observers used by the correspondence driver *)
   Definition grid_energy_at (s : state) (ix : list Z) : T := st_e s ix.
